@@ -478,12 +478,12 @@ def run_task(task):
         if task.get('orders'):
             # C17: the same pass under other iteration orders of every HashMap / HashSet must make the same multiset of claims
             first = sorted(claim_key(c) for c in ex.notes['claims'])
-            for order in ('reverse', 'rotate'):
-                ex.notes['claims'] = []; ex.h.notes['hash_order'] = order
+            for order in ('reverse', 'rotate') + (('shuffle:1', 'shuffle:2', 'shuffle:3') if task.get('tier') == 'thorough' else ('shuffle:1',)):
+                ex.notes['claims'] = []; ex.h.notes['hash_order'] = order; ex.h.notes['hash_iterations'] = 0
                 try: ex.call_mir(side, [Ref(ccell, 0)])
                 finally: ex.h.notes['hash_order'] = None
                 got = sorted(claim_key(c) for c in ex.notes['claims'])
-                ex.oblige(got == first, 'order-dependent', 'the side-effect pass makes the same claims when every hash map / set is iterated in %s order (insertion order: %s, %s: %s) on %s' % (order, first, order, got, describe(ex.notes['sk'], ex.notes['kinds'], ex.notes['conds'])))
+                ex.oblige(got == first, 'order-dependent', 'the side-effect pass makes the same claims when every hash map / set is iterated in the order `%s` (insertion order: %s, %s: %s) on %s' % (order, first, order, got, describe(ex.notes['sk'], ex.notes['kinds'], ex.notes['conds'])))
             ex.notes['claims'] = []
             return 'orders'
         return 'ok'
